@@ -12,11 +12,11 @@ type KeyValue struct {
 }
 
 func (kv KeyValue) Write(writer io.Writer) (int, error) {
-	n, err := fmt.Fprintf(writer, kv.Key)
+	n, err := fmt.Fprintf(writer, "%s", kv.Key)
 	if len(kv.Value) > 0 {
 		m, _ := fmt.Fprintf(writer, "=")
 		n += m
-		m, err = fmt.Fprintf(writer, kv.Value)
+		m, err = fmt.Fprintf(writer, "%s", kv.Value)
 		n += m
 	}
 	return n, err
